@@ -85,7 +85,8 @@ def gen(rng, tier):
         nops = rng.randint(6, 25)
         lines = ["m.new %d" % NATOMS, "M.noclock"]
         if k == 0:
-            lines.append("d.tables")
+            # (after a variable exists: colvar::init adds a run-time exclusion to the shared table)
+            lines.append(cfg(cv_conf(cvlib.Rng(7), "tab")[0])); lines.append("d.tables"); lines.append("m.scriptq cv colvar tab delete")
         cvs = {}     # name -> conf
         kinds = {}
         biases = {}  # name -> (conf, [cvs])
@@ -179,7 +180,7 @@ def vals(out, ln, tag):
 def oracle(case, out):
     m = case["meta"]; viol = []
     # translator cross-check
-    if case["lines"][2:3] == ["d.tables"]:
+    if "d.tables" in case["lines"][2:5]:
         got = sorted(tuple(tok_val(t)[1] for t in v) for (ln, tag, occ), v in out.items() if tag == "feat")
         want = sorted(expected_tables())
         if got and got != want:
@@ -311,7 +312,12 @@ def extra(rep, tier, rng):
             if rc_i != rc_m or impl_objs != model_objs:
                 mism += 1
                 diff = next((i for i in range(n_a) if impl_objs[i] != model_objs[i]), None)
-                rep.violation("dependency engine and model disagree on %s object %d feature %d (rc %s vs %s, first differing object %s)" % (op, oi, fi, rc_i, rc_m, diff),
+                detail = ""
+                if diff is not None and model_objs[diff] is not None:
+                    a, b = impl_objs[diff], model_objs[diff]
+                    pos_ = next((q for q in range(min(len(a), len(b))) if a[q] != b[q]), min(len(a), len(b)))
+                    detail = "; object %d token %d: library %s, model %s" % (diff, pos_, " ".join(a[max(0, pos_ - 2):pos_ + 3]), " ".join(b[max(0, pos_ - 2):pos_ + 3]))
+                rep.violation("dependency engine and model disagree on %s object %d feature %d (rc %s vs %s, first differing object %s%s)" % (op, oi, fi, rc_i, rc_m, diff, detail),
                               "#! correspondence CvModel/Deps.lean <-> colvardeps broken: %s %d %d\n" % (op, oi, fi) + "\n".join(L2[:dl + j + 1]) + "\n",
                               "deps_corr_%d_%d" % (k, j), found_input=False)
                 break
